@@ -664,7 +664,7 @@ def monitor(chk, lines, name="monitor"):
     return {i: (info[0], set(info[1])) for i, info in trace_shards(chk, "Trace_Legacy", lines, name).items()}
 
 
-MACHINE_OPS = ALLOPS | {"texec"}
+MACHINE_OPS = ALLOPS | {"texec", "tvisit"}
 
 
 def machine(chk, lines, name="machine"):
@@ -677,7 +677,7 @@ def machine(chk, lines, name="machine"):
 MC_OPS = {"create", "attach", "detach", "detach_self", "replace_prop", "replace_kids", "replace_bad", "replace_with",
           "replace_with_none", "duplicate"}
 MC_INVARIANTS = {"C18": ["C18ChildrenAttached", "C18ParentBackLink", "C18CidFresh"],
-                 "C19": ["C19Frame", "C19EarlyErrorsClean"]}
+                 "C19": ["C19Frame", "C19EarlyErrorsClean", "C19VisitorAtomic"]}
 
 
 def tla_prog(prog) -> str:
@@ -689,7 +689,8 @@ def tla_prog(prog) -> str:
 
 
 def mc_design(chk, pid, name, maxops, maxhandles, classes, maxkids, modes=("plain", "detached", "unique"),
-              dupmodes=("attached", "detached"), atoms=(0, 1), ops=None, emit=True, invariants=None, prelude=(), workers=None):
+              dupmodes=("attached", "detached"), atoms=(0, 1), ops=None, emit=True, invariants=None, prelude=(), workers=None,
+              trules=TRULES):
     """TLC on the machine itself (LegacyMC.tla): the property as an invariant of the design, and the witness program
     of every transition taken.  Runs in a work directory of its own (several instances run side by side)."""
     import shutil
@@ -697,7 +698,7 @@ def mc_design(chk, pid, name, maxops, maxhandles, classes, maxkids, modes=("plai
     mod, cfg = inst.instance("I_LegacyMC", "LegacyMC",
                              dict(MaxOps=maxops, MaxHandles=maxhandles, GenClasses=set(classes), MaxKids=maxkids,
                                   Ops=set(ops or MC_OPS), Modes=set(modes), DupModes=set(dupmodes), Atoms=set(atoms),
-                                  Prelude="@tla:" + tla_prog(prelude)),
+                                  Prelude="@tla:" + tla_prog(prelude), TRules=set(trules)),
                              invariants=inv, view="View", action_constraints=["Emit"] if emit else [])
     wd = chk.wd / f"mc-{name}"
     if wd.exists():
@@ -733,16 +734,24 @@ def run(chk: core.Check, pid: str, classify):
     DETACH = {"create", "detach", "attach", "duplicate"}
     REPL = {"create", "replace_with", "replace_with_none", "detach"}
     PD = ("plain", "detached")
+    TR = {"create", "tvisit", "texec"}
+    TRD = {"create", "tvisit", "texec", "detach"}
+    R4 = ("bump", "fresh", "drop", "boom")
+    # (name, MaxOps, MaxHandles, classes, MaxKids, modes, atoms, ops (None = all but the transformations), dup modes,
+    #  prelude[, witness programs exported (default True)[, rules of the user transformations]])
     if quick:
         mcs = [("abc-4", 4, 3, ["LLeaf", "LUnary", "LMany"], 2, ALL3, (0, 1), None, None, ()),
-               ("chains-5", 5, 4, ["LLeaf", "LUnary"], 1, PD, (0,), None, None, ()),
                ("opt-list-4", 4, 3, ["LLeaf", "LOpt", "LList"], 2, PD, (0,), None, None, ()),
                # long histories over few operations: detach / re-attach / duplicate chains; replacements inside tuples
                ("focus-detach-6", 6, 5, ["LLeaf", "LUnary"], 1, ("plain",), (0,), DETACH, ("attached",), ()),
                ("focus-replace-5", 5, 4, ["LLeaf", "LMany"], 2, ("plain",), (0,), REPL, ("attached",), ()),
                # every operation, two / three deep, from a state that has a tuple of two, a chain and spare nodes
                ("after-tuple-2", 7, 7, ["LLeaf", "LUnary", "LMany"], 2, PD, (0,), None, None, TUPLE),
-               ("after-chain-3", 6, 6, ["LLeaf", "LUnary"], 1, PD, (0, 1), None, None, CHAIN)]
+               ("after-chain-3", 6, 6, ["LLeaf", "LUnary"], 1, PD, (0, 1), None, None, CHAIN),
+               # user transformations: visitors (detached clone, then replace_with) and transformers (in place, bottom-up)
+               ("transform-4", 4, 4, ["LLeaf", "LMany"], 2, ("plain",), (0,), TR, None, ()),
+               ("transform-single-4", 4, 4, ["LLeaf", "LUnary", "LOpt"], 1, PD, (0,), TRD, None, (), True, ("bump", "drop", "boom")),
+               ("transformer-partial-5", 5, 5, ["LLeaf", "LUnary", "LMany"], 2, ("plain",), (0,), {"create", "texec"}, None, (), True, ("drop",))]
     else:
         # a trailing False: model checking only (the design's invariants at a depth whose witness programs would be
         # too many to execute)
@@ -753,6 +762,10 @@ def run(chk: core.Check, pid: str, classify):
                ("focus-replace-6", 6, 4, ["LLeaf", "LMany"], 2, ("plain",), (0,), REPL, ("attached",), ()),
                ("after-tuple-2", 7, 7, ["LLeaf", "LUnary", "LMany"], 2, ALL3, (0, 1), None, None, TUPLE),
                ("after-chain-3", 6, 6, ["LLeaf", "LUnary"], 1, ALL3, (0, 1), None, None, CHAIN),
+               ("transform-4", 4, 4, ["LLeaf", "LMany"], 2, ("plain",), (0, 1), TR, None, ()),
+               ("transform-single-4", 4, 4, ["LLeaf", "LSub", "LUnary", "LOpt"], 1, PD, (0,), TRD, None, (), True, R4),
+               ("transformer-partial-5", 5, 5, ["LLeaf", "LUnary", "LMany"], 2, ("plain",), (0,), {"create", "texec"}, None, (), True, ("drop",)),
+               ("all-ops-4", 4, 4, ["LLeaf", "LUnary", "LMany"], 2, PD, (0, 1), MC_OPS | {"tvisit", "texec"}, None, ()),
                ("replace-kids-6", 6, 6, ["LLeaf", "LMany"], 2, ("plain",), (0,), {"create", "replace_kids"}, ("attached",), (), False),
                ("after-tuple-3", 8, 8, ["LLeaf", "LUnary", "LMany"], 2, ("plain",), (0,), None, None, TUPLE, False),
                ("after-chain-4", 7, 7, ["LLeaf", "LUnary"], 1, PD, (0,), None, None, CHAIN, False)]
@@ -761,8 +774,10 @@ def run(chk: core.Check, pid: str, classify):
     def one_mc(spec):
         name, maxops, maxh, classes, maxkids, modes, atoms, ops, dupmodes, prelude = spec[:10]
         emit = spec[10] if len(spec) > 10 else True
+        trules = spec[11] if len(spec) > 11 else TRULES
         return name, mc_design(chk, pid, name, maxops, maxh, classes, maxkids, modes=modes, atoms=atoms, ops=ops, emit=emit,
-                               dupmodes=dupmodes or ("attached", "detached"), prelude=prelude, workers=max(2, core.NPROC // 3))
+                               dupmodes=dupmodes or ("attached", "detached"), prelude=prelude, workers=max(2, core.NPROC // 3),
+                               trules=trules)
     with cf.ThreadPoolExecutor(max_workers=3) as ex:
         results = list(ex.map(one_mc, mcs))
     for name, r in results:
@@ -773,22 +788,15 @@ def run(chk: core.Check, pid: str, classify):
             tlc.require_clean(r, "LegacyMC/" + name)
         raws += r.json_raw
     chk.exhaustive = True
-    # (b) user transformations (visitors work on a detached clone and then replace_with; transformers work in place,
-    #     bottom-up): not modelled by the machine; all programs of LegacyScripts.tla, judged by the monitor
+    # (b) a blind enumeration of all programs (LegacyScripts.tla tracks only the class of every handle): what is executed
+    #     does not depend on the machine's idea of the state
     if quick:
-        raws += gen_scripts(chk, 4, 4, ["LLeaf", "LMany"], 2, "focus-transform",
-                            ops={"create", "tvisit", "texec"}, modes=("plain",), atoms=(0,))
-        raws += gen_scripts(chk, 4, 4, ["LLeaf", "LUnary", "LOpt"], 1, "focus-transform-single",
-                            ops={"create", "tvisit", "texec", "detach"}, modes=("plain", "detached"), atoms=(0,),
-                            trules=("bump", "drop", "boom"))
+        raws += gen_scripts(chk, 3, 3, ["LLeaf", "LUnary", "LMany"], 2, "len3", ops=ALLOPS | TRANSFORM_OPS, atoms=(0,))
     else:
-        raws += gen_scripts(chk, 4, 4, ["LLeaf", "LMany"], 2, "focus-transform",
-                            ops={"create", "tvisit", "texec"}, modes=("plain",), atoms=(0, 1))
-        raws += gen_scripts(chk, 4, 4, ["LLeaf", "LSub", "LUnary", "LOpt"], 1, "focus-transform-single",
+        raws += gen_scripts(chk, 4, 3, ["LLeaf", "LUnary", "LMany"], 2, "len4")
+        raws += gen_scripts(chk, 4, 4, ["LLeaf", "LSub", "LUnary", "LOpt"], 1, "transform-single-4",
                             ops={"create", "tvisit", "texec", "detach"}, modes=("plain", "detached"), atoms=(0,),
                             trules=("bump", "fresh", "drop", "boom"))
-        raws += gen_scripts(chk, 5, 5, ["LLeaf", "LUnary", "LMany"], 2, "focus-transformer-partial",
-                            ops={"create", "texec"}, modes=("plain",), atoms=(0,), trules=("drop",))
     raws += [json.dumps(json.dumps({"prog": p})) for p in FIXED_PROGRAMS]
     chk.replayed += len(raws)
     sink, strays = collect(chk, core.parallel(_exec, raws, {}, chunk=400))
@@ -922,7 +930,8 @@ def replay(chk, data, pid, classify):
 
 
 # ---------------------------------------------------------------------------------------------
-# known-finding predicates (see known_findings.json / DESIGN section 7)
+# known-finding predicates (see known_findings.json / DESIGN 14.3, 14.7).  The C19 findings are defined by the machine
+# (c19.classify_line); only the shape of id-twin-nested is a predicate over the observed state.
 
 
 def _subtree(S, n, acc):
@@ -933,90 +942,6 @@ def _subtree(S, n, acc):
         for x in (v if isinstance(v, list) else [v]):
             if x != "none":
                 _subtree(S, x, acc)
-
-
-def finding_partial_attach(ln, outcome, clause):
-    """C19: an operation that attaches its argument nodes child by child is rejected at a later child (or
-    descendant) after earlier ones were already linked / registered.  Only nodes below the operation's
-    arguments differ, and only in attachment and parent link."""
-    op = ln["op"]
-    if outcome not in ("ASTNodeParentCollisionError", "ASTNodeRegistryCollisionError", "ASTNodeReplaceWithError"):
-        return None
-    if clause not in ("parent-link-changed", "attached-changed", "registry-size-changed"):
-        return None
-    if op["op"] in ("create", "replace_kids"):
-        args = [f"h{k}" for k in (op["kids"] or [])]
-    elif op["op"] == "replace_with":
-        args = [f"h{op['b']}"]
-    elif op["op"] == "attach":
-        args = [f"h{op['a']}"]
-    else:
-        return None
-    pre, post = ln["pre"], ln["post"]
-    allowed: set = set()
-    for a in args:
-        _subtree(pre, a, allowed)
-    if op["op"] in ("attach", "replace_with"):
-        # the receiver of attach / the argument of replace_with itself must be exactly as before; only nodes
-        # strictly below it may keep links / registrations
-        for a in args:
-            allowed.discard(a)
-    for n, a in pre.items():
-        b = post.get(n)
-        if b is None:
-            return None
-        diff = {k for k in ("det", "par", "pf", "pi", "p", "k", "idc", "oidc", "cidc") if a[k] != b[k]}
-        if not diff:
-            continue
-        if n not in allowed or not diff <= {"det", "par", "pf", "pi"}:
-            return None
-    return "partial-attach-effects"
-
-
-def finding_transformer_partial(ln, outcome, clause):
-    """C19: ASTTransformer.execute works in place, bottom-up; when the replacement of a later node is refused
-    (a selected leaf in a required field cannot be removed) the earlier removals stay.  Exactly that shape: the leaves
-    the rule selects and that sit in sequences / optional fields are detached and unlinked, their former siblings shift,
-    content ids change along the way up; the refused leaf and everything outside the receiver's tree are untouched."""
-    op = ln["op"]
-    if op["op"] != "texec" or outcome != "ASTTransformError" or op["mode"] != "drop":
-        return None
-    pre, post = ln["pre"], ln["post"]
-    root = f"h{op['a']}"
-    if root not in pre:
-        return None
-    sub: set = set()
-    _subtree(pre, root, sub)
-    anc, a, guard = set(), pre[root]["par"], 0
-    while a != "none" and a in pre and guard < 50:
-        anc.add(a)
-        a = pre[a]["par"]
-        guard += 1
-    removed = 0
-    for n, x in pre.items():
-        y = post.get(n)
-        if y is None:
-            return None
-        diff = {k for k in ("det", "par", "pf", "pi", "p", "k", "idc", "oidc", "cidc") if x[k] != y[k]}
-        if not diff:
-            continue
-        selected = n in sub and x["c"] in ("LLeaf", "LSub") and x["p"].get("a") == op["atom"]
-        if selected:
-            par = pre.get(x["par"])
-            if par is None or (par["c"] == "LUnary" and x["pf"] == "child"):
-                return None             # the leaf whose removal was refused (or a root) must be as before
-            if not diff <= {"det", "par", "pf", "pi"} or not y["det"]:
-                return None
-            removed += 1
-        elif n in sub:
-            if not diff <= {"pi", "k", "cidc"}:
-                return None
-        elif n in anc:
-            if not diff <= {"cidc"}:
-                return None
-        else:
-            return None
-    return "transformer-partial-effects" if removed else None
 
 
 def finding_id_twin_nested(ln, outcome, clause):
